@@ -15,12 +15,16 @@ def main(ctx):
     m(R=3, C=102, stripe=[1, 100, 101]); m(R=102, C=3, stripe=[0, 100, 101]); m(R=3, C=103, stripe=[1, 101, 102])
     J.append({'mod': MOD, 'fn': 'intervals', 'mode': 'sym', 'args': {'regularization': True, 'cap': cap}})
     J.append({'mod': MOD, 'fn': 'intervals', 'mode': 'sym', 'args': {'regularization': False, 'cap': cap}})
+    # the configured filter size is the one applied to the bound bands (1: bands unchanged; 5: wider edge band)
+    J.append({'mod': MOD, 'fn': 'intervals', 'mode': 'sym', 'args': {'R': 3, 'C': 3, 'fs': 1, 'regularization': False, 'cap': cap}})
     J.append({'mod': MOD, 'fn': 'bilateral', 'mode': 'sym', 'args': {'cap': cap}})
     J.append({'mod': MOD, 'fn': 'bilateral', 'mode': 'sym', 'args': {'R': 4, 'C': 3, 'sigma_space': 0.4, 'cap': cap}})
     # bilateral value (documented weighted mean) on concrete masks, symbolic disparities
     J.append({'mod': MOD, 'fn': 'bilateral', 'mode': 'sym', 'args': {'value': True, 'conc_mask': [0, 1, 0, 0, 0, 0, 0, 0, 64], 'cap': 60}})
     J.append({'mod': MOD, 'fn': 'bilateral', 'mode': 'sym', 'args': {'value': True, 'conc_mask': [0] * 12, 'R': 3, 'C': 4, 'sigma_color': 1.5, 'cap': 60}})
     J.append({'mod': MOD, 'fn': 'bilateral', 'mode': 'sym', 'args': {'value': True, 'conc_mask': 'random', 'R': 4, 'C': 4, 'seed': ctx.seed, 'cap': 60}})
+    # even window (int(3 sigma + 1) == 4): the spatial kernel is centred on pixel win // 2
+    J.append({'mod': MOD, 'fn': 'bilateral', 'mode': 'sym', 'args': {'value': True, 'conc_mask': [0] * 25, 'R': 5, 'C': 5, 'sigma_space': 1.0, 'cap': 120}})
     # 50-pixel processing blocks of the bilateral filter
     J.append({'mod': MOD, 'fn': 'bilateral_blocks', 'mode': 'sym', 'args': {'axis': 1, 'N': 53, 'lo': 47, 'hi': 53, 'cap': cap}})
     J.append({'mod': MOD, 'fn': 'bilateral_blocks', 'mode': 'sym', 'args': {'axis': 0, 'N': 52, 'lo': 46, 'hi': 52, 'cap': cap}})
@@ -34,6 +38,7 @@ def main(ctx):
         m(R=4, C=4); m(R=5, C=5, fs=5, stripe=[1, 2, 3]); m(R=3, C=202, stripe=[1, 199, 201]); m(R=201, C=3, stripe=[0, 199, 201])
         m(R=5, C=104, fs=5, stripe=[1, 101, 102]); m(R=3, C=101, stripe=[1, 98, 101]); m(R=3, C=100, stripe=[1, 97, 100])
         J.append({'mod': MOD, 'fn': 'intervals', 'mode': 'sym', 'args': {'R': 3, 'C': 4, 'regularization': False, 'cap': cap}})
+        J.append({'mod': MOD, 'fn': 'intervals', 'mode': 'sym', 'args': {'R': 5, 'C': 5, 'fs': 5, 'regularization': False, 'cap': cap}})
         J.append({'mod': MOD, 'fn': 'bilateral', 'mode': 'sym', 'args': {'R': 4, 'C': 4, 'sigma_space': 0.7, 'cap': cap}})
     cexs = []
     for r in ctx.run_jobs(J, timeout=1500 if ctx.quick else 7200):
